@@ -414,6 +414,13 @@ def r10(ctx):
     want = {"get_no_func_code_support", "get_object_unknown", "get_parameter_error"}
     ctx.check(want <= got, "has_bad_request_error:all-three", "has_bad_request_error consults %s" % sorted(got), hb.where(line=hb.line), bad_detail="has_bad_request_error consults only %s" % sorted(got))
 
+def r11(ctx):
+    """'status SUCCESS' in the echo test means the octet 0 and nothing else: rests on C09.R14 (shared code). 'from the addressed
+    outstation whose sequence number matches': the acceptance conjuncts of validate_non_read_response are rule C15.R1 (shared)."""
+    import c09, c15
+    c09.r14(ctx)
+    c15.r1(ctx)
+
 RULES = [
     ("C16.R1", "T2", "command success and SELECT->OPERATE only behind a parsed, faithful echo", r1),
     ("C16.R2", "T2", "echo comparison: status SUCCESS, index+value equality, exact object and header counts", r2),
@@ -425,4 +432,5 @@ RULES = [
     ("C16.R8", "T2-loop", "response deadlines are fixed before the wait loop", r8),
     ("C16.R9", "T4-namesake", "stop / task error translations build the namesake variant (Disabled -> Disable, Shutdown -> Shutdown)", r9),
     ("C16.R10", "T11/T4", "the IIN2 rejection test sees every error bit (bit positions and getters, shared with C13.R1)", r10),
+    ("C16.R11", "T4/T9", "command status codes: unknown octets preserved, equality variant-sensitive (shared with C09.R14); non-READ acceptance tests (shared with C15.R1)", r11),
 ]
